@@ -138,6 +138,8 @@ def dcops(draw, min_vars=1, max_vars=6, max_dom=3, min_dom=1, max_constraints=7,
         c = {"name": "c%d" % len(constraints), "scope": list(scope), "kind": kind}
         if kind == "matrix":
             c["table"] = nested_table(draw, [len(doms[s]) for s in scope], costs)
+            if len(scope) >= 2 and draw(st.integers(0, 5)) == 0:
+                c["layout"] = "F"   # column-major numpy array: same table, other memory order
         else:
             c["expr"] = expression_for(draw, scope, doms)
         constraints.append(c)
